@@ -49,6 +49,7 @@ VARIANTS = {
     "bottom=-1": dict(bottom_det=-1.0, total_bottom_det=-2.0),
     # between the per-atom limits of two detuning maps configured on ONE DMM id (largest weights 0.75 and 1.0, detuning -1.5)
     "bottom=-1.4": dict(bottom_det=-1.4, total_bottom_det=-60.0),
+    "max_targets=1": dict(max_targets=1),
     "renamed": dict(),  # identical in every parameter: the switch must succeed and change nothing
 }
 
@@ -81,6 +82,9 @@ GLp = [("declare", "g", "rydberg_global"), ("declare", "l", "raman_local", "q0")
 # programs on other prefixes: SLM mask (default / positional / keyword DMM id; before / after the first channel and pulse; Ising,
 # XY and undetermined mode), magnetic field, measurement, variables
 AUX = [
+    # a Local channel declared with SEVERAL initial targets (the limit on simultaneous targets of the new device applies to them too)
+    ([("declare", "g", "rydberg_global"), ("declare", "l", "raman_local", ["q0", "q1"])], [("add", A.C52, "l"), ("target", "q2", "l"), ("add", A.C52P, "l")]),
+    ([("declare", "l", "raman_local", ["q1", "q2"])], [("add", A.C52, "l")]),
     ([("slm", ["q0"]), ("declare", "g", "rydberg_global")], [("add", A.C52, "g"), ("add", A.C52P, "g")]),
     ([("declare", "g", "rydberg_global"), ("slm", ["q1"], "dmm_0")], [("add", A.C52, "g")]),
     ([("declare", "g", "rydberg_global"), ("add", A.C52, "g"), ("raw", "config_slm_mask", [["q0", "q2"]], {"dmm_id": "dmm_1"})],
@@ -243,6 +247,12 @@ def run_case(case):
                         v, why = inside(s.pulse.amp, s.pulse.det, s.tf - s.ti, pp, dmm)
                         if v is False:
                             out.append((f"C18:non-strict-switch-violates-new-device:{why}:{diffkey}", f"program {pi}: {name} {s.brief()}"))
+                mt = getattr(co, "max_targets", None)
+                if mt is not None and co.addressing == "Local":
+                    for s in ch.slots:
+                        if len(s.targets) > mt:
+                            out.append((f"C18:non-strict-switch-violates-new-device:max-targets:{diffkey}", f"program {pi}: {name} {s.brief()} addresses {len(s.targets)} atoms, the channel allows {mt}"))
+                            break
                 for prob in tiling_problems(ch, co):
                     out.append((f"C18:non-strict-switch-malformed-timeline:{diffkey}", f"program {pi}: {name}: {prob}"))
             mx = new.device.max_sequence_duration
